@@ -78,7 +78,17 @@ static Verdict run_c07(const Case &c)
       bytes other = expand(len * 5 + 11, (size_t)c.geti("otherlen"), 0);
       if (c.geti("otherlen") > 0)
         v.classes.push_back("second_hash_buffer_alive");
-      got = wapi::hash_filebuf(alg, file, pos, refill, prefix ? &pre : NULL, c.geti("otherlen") > 0 ? &other : NULL);
+      int how = (int)c.geti("how", 0);
+      if (how == 1)
+        v.classes.push_back("file_entry_reads_from_a_pipe");
+      if (how == 2)
+      {
+        // the stream has been read to its end by the caller: the message that is left is empty
+        v.classes.push_back("file_entry_stream_already_at_eof");
+        m.clear();
+        len = 0;
+      }
+      got = wapi::hash_filebuf(alg, file, pos, refill, prefix ? &pre : NULL, c.geti("otherlen") > 0 ? &other : NULL, how);
       bytes whole;
       if (prefix)
         whole = pre;
@@ -138,6 +148,8 @@ static Case gen_c07()
     c.seti("prefix", g::coin(50) ? 1 : 0);
     if (g::coin(25))
       c.seti("otherlen", g::range(1, 400));
+    if (g::coin(14))
+      c.seti("how", g::coin(75) ? 1 : 2); // the stream is a pipe / has been read to its end before
   }
   else
   {
